@@ -190,6 +190,84 @@ macro_rules! poly_cell {
     }};
 }
 
+/// cancellation family: unstructured x and coefficients (fixed LCG sequence), the constant term solved so that the
+/// last quire stage cancels down to the rounding residual of its other terms: c0 = -RN(stage sum without c0),
+/// displaced by -1, 0, 1 encodings. Every bit the accumulation loses in a product becomes visible in the result.
+macro_rules! poly_cancel_cell {
+    ($v:ident, $P:ty, $len:literal, $m:ident, $kind:literal, $nx:expr, $nv:expr) => {{
+        let n = <$P as Fx>::N;
+        let es = <$P as Fx>::ES;
+        let mask: u32 = if n == 32 { u32::MAX } else { (1u32 << n) - 1 };
+        let nx: u64 = $nx;
+        let nv: u64 = $nv;
+        let len: usize = $len;
+        // operands with moderate scale (so that powers and products stay far from saturation) and arbitrary fractions
+        let gen = move |seed: u64| -> u32 {
+            let mut st = seed.wrapping_mul(0x9E37_79B9_7F4A_7C15) ^ 0xD1B5_4A32_D192_ED03;
+            st = st.wrapping_mul(6364136223846793005).wrapping_add(1442695040888963407);
+            st ^= st >> 29;
+            let r = (st >> 16) as u32;
+            let one = 1u32 << (n - 2);
+            // |value| in roughly [1/16, 16): top bits 01xx or 00 1x.., fraction arbitrary; sign from bit 0 of the seed hash
+            let mag = (one >> 2).wrapping_add(r % (one + (one >> 1))) & (mask >> 1);
+            let mag = if mag == 0 { one } else { mag };
+            if st & 1 == 1 { mag.wrapping_neg() & mask } else { mag }
+        };
+        $v.push(CellDef::new(
+            "C18",
+            format!("{}/poly{}#cancel", <$P as Fx>::NAME, $kind),
+            Space::func(nx * nv * 3, format!("{} unstructured x values x {} unstructured coefficient vectors x constant term = -RN(rest of the last stage) displaced by -1, 0, 1", nx, nv), |i| i as u128),
+            move |key| {
+                let i = key as u64;
+                let d = (i % 3) as i32 - 1;
+                let r = i / 3;
+                let (xi, vi) = (r % nx, r / nx);
+                let x = gen(0x1000_0000 + xi);
+                let mut c: Vec<u32> = (0..len).map(|j| gen((vi << 8) + j as u64 + ((xi & 3) << 40))).collect();
+                c[len - 1] = 0;
+                let cvec0: Vec<Vec<u32>> = c.iter().map(|&q| vec![q]).collect();
+                let (p0, _) = ref_poly(n, es, $kind, x, &cvec0);
+                if p0 == o::nar(n) {
+                    return Out::skip();
+                }
+                c[len - 1] = (p0.wrapping_neg() & mask).wrapping_add(d as u32) & mask;
+                if c[len - 1] == o::nar(n) {
+                    return Out::skip();
+                }
+                let cvec: Vec<Vec<u32>> = c.iter().map(|&q| vec![q]).collect();
+                let (want, nt) = ref_poly(n, es, $kind, x, &cvec);
+                let got = guard(|| poly_call!(s, $P, $len, $m, 0, x, c));
+                Out::cmp(got, want as u128, nt)
+            },
+        ));
+    }};
+}
+
+macro_rules! all_degrees_cancel {
+    ($v:ident, $P:ty, $nx:expr, $nv:expr) => {
+        poly_cancel_cell!($v, $P, 2, poly1, "1", $nx, $nv);
+        poly_cancel_cell!($v, $P, 3, poly2, "2", $nx, $nv);
+        poly_cancel_cell!($v, $P, 4, poly3, "3", $nx, $nv);
+        poly_cancel_cell!($v, $P, 5, poly4, "4", $nx, $nv);
+        poly_cancel_cell!($v, $P, 4, poly3a, "3a", $nx, $nv);
+        poly_cancel_cell!($v, $P, 5, poly4a, "4a", $nx, $nv);
+        poly_cancel_cell!($v, $P, 6, poly5, "5", $nx, $nv);
+        poly_cancel_cell!($v, $P, 7, poly6, "6", $nx, $nv);
+        poly_cancel_cell!($v, $P, 8, poly7, "7", $nx, $nv);
+        poly_cancel_cell!($v, $P, 9, poly8, "8", $nx, $nv);
+        poly_cancel_cell!($v, $P, 10, poly9, "9", $nx, $nv);
+        poly_cancel_cell!($v, $P, 11, poly10, "10", $nx, $nv);
+        poly_cancel_cell!($v, $P, 12, poly11, "11", $nx, $nv);
+        poly_cancel_cell!($v, $P, 13, poly12, "12", $nx, $nv);
+        poly_cancel_cell!($v, $P, 14, poly13, "13", $nx, $nv);
+        poly_cancel_cell!($v, $P, 15, poly14, "14", $nx, $nv);
+        poly_cancel_cell!($v, $P, 16, poly15, "15", $nx, $nv);
+        poly_cancel_cell!($v, $P, 17, poly16, "16", $nx, $nv);
+        poly_cancel_cell!($v, $P, 18, poly17, "17", $nx, $nv);
+        poly_cancel_cell!($v, $P, 19, poly18, "18", $nx, $nv);
+    };
+}
+
 macro_rules! poly_call {
     (s, $P:ty, $len:literal, $m:ident, $k:literal, $x:expr, $c:expr) => {{
         let mut arr = [<$P>::ZERO; $len];
@@ -258,6 +336,10 @@ pub fn cells(thorough: bool) -> Vec<CellDef> {
     all_degrees!(v, P8E0, 0, x8.clone(), c8.clone(), thorough);
     all_degrees!(v, P16E1, 0, x16.clone(), c16.clone(), thorough);
     all_degrees!(v, P32E2, 0, x32.clone(), c32.clone(), thorough);
+    let (cx, cv): (u64, u64) = if thorough { (512, 512) } else { (128, 96) };
+    all_degrees_cancel!(v, P8E0, cx, cv);
+    all_degrees_cancel!(v, P16E1, cx, cv);
+    all_degrees_cancel!(v, P32E2, cx, cv);
     // array coefficient types [P; 1..4]
     array_small!(v, P8E0, 1, x8.clone(), c8.clone());
     array_small!(v, P8E0, 2, x8.clone(), c8.clone());
